@@ -19,6 +19,32 @@ CLAIMED = {
         "Alphabet: blank is the only non-hint whitespace; identifiers of ordinary length as the corpus has them. Trusted: the invariant oracle and CPython.",
         "DESIGN.md section 3 C13",
     ),
+    "C12": (
+        "exhaustive enumeration of splicer files (<=4/5 lines over an 11-line alphabet) on the real reader vs a reference reader; splicer name x body x supply way regeneration with block comparison; per-file round trip",
+        "Every splicer file up to the line bound is read by the real get_splicers and by a reference reader written from the documentation and the resulting "
+        "dictionaries compared; for every splicer name shroud emits for a four-language library, each body of a body alphabet is supplied in every way "
+        "(command-line file, splicer: list, splicer_code, declaration splicer, and pairs of ways) and the regenerated block must hold the body while every other "
+        "block keeps its default; every generated file of three small libraries and of the corpus is fed back as a splicer file and every block must be reproduced.",
+        "Block comparison is up to leading indentation and trailing blanks (the property's own tolerance). Tags without a name are outside the alphabet.",
+        "DESIGN.md section 3 C12",
+    ),
+    "C09": (
+        "exhaustive enumeration of the declarator derivation grammar to a depth bound; derivation-vs-AST equality, parse-render-parse fixpoint, g++ static_assert(is_same) on renderings",
+        "Every declaration derived from the grammar (types and specifier permutations x cv x pointer/reference chains x arrays x functions with 0-2 parameters x "
+        "function pointers x attributes x defaults; 29k quick, 100k thorough) is parsed by the real parser; the recorded AST must equal the derivation that produced "
+        "the text, re-parsing shroud's rendering must give the same AST, and g++ must find the C++ (and, for native types, C) rendering to denote the same type as the original.",
+        "g++ 12 -std=c++11 as the meaning of C++ declarations; the derivation grammar in vt/declgen.py.",
+        "DESIGN.md section 3 C09",
+    ),
+    "C17": (
+        "exhaustive enumeration of token strings, single-token mutants, attribute grids and YAML structure mutations on the real parser / generate pass / console entry; outcome-class oracle",
+        "Every token string up to length 3 over a 32-token alphabet and 5 over a 9-token core (quick; 4 and 7 thorough, 10.4M parses), every single-token deletion, "
+        "insertion and substitution of the valid derivations, every attribute name x value form x site, every documented illegal attribute combination and every "
+        "single structural mutation of a valid YAML tree is run; each run must end accepted or with a RuntimeError/SystemExit/NotImplementedError diagnostic, "
+        "accepted text must be bracket balanced with every token accounted for in shroud's own rendering, valid derivations must be accepted, misuse with a dedicated diagnostic must get it.",
+        "Token accounting treats attribute values as opaque text and cv/storage words as idempotent. 36 unvalidated-YAML/attribute call sites are listed as known findings.",
+        "DESIGN.md section 3 C17",
+    ),
 }
 
 PENDING_REASON = "check not built yet in this round (planned, see DESIGN.md section 8); not claimed until it runs"
